@@ -163,7 +163,8 @@ def calc_intensity(detector, scatterer, medium_index=None, illum_wavelen=None,
     field = calc_field(detector, scatterer, medium_index=medium_index,
                        illum_wavelen=illum_wavelen,
                        illum_polarization=illum_polarization, theory=theory)
-    intensity = (np.abs(field.sel(vector=['x', 'y']))**2).sum(dim=vector)
+    intensity = (np.abs(field.sel(vector=['x', 'y']))**2).sum(dim=vector,
+                                                               skipna=False)
     return copy_metadata(field, intensity, do_coords=False)
 
 
@@ -340,7 +341,9 @@ def scattered_field_to_hologram(scat, ref):
         The reference field
     """
     total_field = scat + ref
-    holo = (np.abs(total_field.sel(vector=['x', 'y']))**2).sum(dim=vector)
+    # (skipna=False: a field that is not a number must not become a 0)
+    holo = (np.abs(total_field.sel(vector=['x', 'y']))**2).sum(dim=vector,
+                                                               skipna=False)
     return holo
 
 
